@@ -337,6 +337,30 @@ pub fn run(cfg: &RunCfg) -> Report {
         deps.extend(dependents(fm, &roots));
         let jb = judge_one(&c.base, ob, &ans[2 * k], "without faults", &BTreeSet::new());
         let jf = judge_one(fm, of, &ans[2 * k + 1], "with faults", &deps);
+        // the TypeScript backend: every replaced assignment is declared under its name or named in a warning
+        if k % 4 == 3 || c.faults.len() == fm.iter().map(|m| m.defs.len()).sum::<usize>() {
+            if let Outcome::Ok { generated, warnings } = compile_ts(&render(&[fm.clone()])) {
+                rep.count("typescript-backend");
+                let sq: String = generated.split_whitespace().collect::<Vec<_>>().join(" ");
+                // warnings that name no definition may stand for one unrepresented definition each
+                let all_names: Vec<&String> = fm.iter().flat_map(|m| m.defs.iter().map(|d| &d.name)).collect();
+                let mut anonymous = warnings.iter().filter(|w| !all_names.iter().any(|n| w.contains(&format!(" {n}:")))).count();
+                for (mi, di, _) in &c.faults {
+                    let d = &fm[*mi].defs[*di];
+                    let collides = fm.iter().flat_map(|m| m.defs.iter()).filter(|x| x.name == d.name).count() > 1;
+                    let n = d.name.replace('-', "_");
+                    let declared = ["type", "enum", "const", "interface"].iter().any(|kw| sq.contains(&format!("export {kw} {n} ")) || sq.contains(&format!("export {kw} {n}=")));
+                    let warned = warnings.iter().any(|w| w.contains(&format!(" {}:", d.name)));
+                    if !declared && !warned && !collides && anonymous > 0 {
+                        anonymous -= 1;
+                        continue;
+                    }
+                    if !declared && !warned && !collides {
+                        rep.unsat("", false, json!({"why": format!("TypeScript backend: `{}` ({}) of module {} is neither declared nor named in a warning ({} warnings in all)", d.name, d.text, fm[*mi].name, warnings.len()), "case": c.to_json()}));
+                    }
+                }
+            }
+        }
         let mut loc = Vec::new();
         if matches!(ob.outcome, Outcome::Ok { .. }) && matches!(of.outcome, Outcome::Ok { .. }) && ob.parse_error.is_none() && of.parse_error.is_none() {
             loc = locality(c, ob, fm, of);
